@@ -8,13 +8,14 @@
 #ifndef SPEC_TCP_ASYNC_H
 #define SPEC_TCP_ASYNC_H
 
+/* The elapsed time is computed exactly as ISO C difftime() does for an arithmetic time_t (difference of the two values as double):
+ * for |times| < 2^52 and options < 2^53 this IS the integer comparison (every operand is exactly representable), and a SAT solver
+ * need not prove the equivalence of an integer and a floating-point comparator. */
 static int spec_async_timed_out(long long now, long long since, unsigned long long opt) {
-	long long d = now - since;
-	return opt == 0 || (d > 0 && (unsigned long long)d > opt);
+	return opt == 0 || ((double)now - (double)since > (double)opt);
 }
 static int spec_async_round_over(long long now, long long start, unsigned long long duration) {
-	long long d = now - start;
-	return d >= 0 && (unsigned long long)d >= duration;
+	return (double)now - (double)start >= (double)duration;
 }
 /* more requests may be started in the current round */
 static int spec_async_round_has_room(unsigned long long roundCount, unsigned long long maxCount) { return roundCount < maxCount; }
